@@ -384,6 +384,14 @@ bk!(c20_nd_reduce_1x2, 6, {
     reductions::<Array2<f64>, 1, 2, 2, 0>(nd(1, 2, &a), nd(1, 2, &b), &ai, &bi);
 });
 
+// small ndarray instance of the means / argmax family for the quick tier (ties: the FIRST maximal column, as on the dense backend)
+// @vp name=c20_nd_means_argmax_1x3 prop=C20 tier=quick t=480 features=backends fns=ndarray::column_mean,mean,argmax size=1x3 dom=lattice(-4..4),f64
+bk!(c20_nd_means_argmax_1x3, 9, {
+    let (ai, a) = latarr::<3>(-4, 4);
+    let (bi, b) = latarr::<3>(-4, 4);
+    reductions::<Array2<f64>, 1, 3, 3, 1>(nd(1, 3, &a), nd(1, 3, &b), &ai, &bi);
+});
+
 // nalgebra matmul (ndarray's goes through inline assembly in `matrixmultiply` and cannot be translated)
 // @vp name=c20_na_matmul_2x3_3x2 prop=C20 tier=quick mem=30 t=480 features=backends fns=nalgebra::matmul size=2x3*3x2 dom=lattice(-3..3),f64
 bk!(c20_na_matmul_2x3_3x2, 9, {
